@@ -235,6 +235,7 @@ def run_check(check: Check, argv: t.Optional[t.Sequence[str]] = None) -> int:
     ap.add_argument("--replay")
     ap.add_argument("--workers", type=int, default=int(os.environ.get("VERIF_WORKERS") or check.workers))
     ap.add_argument("--limit", type=int, default=0, help="run only the first N cases (debugging; evidence marks it)")
+    ap.add_argument("--spread", action="store_true", help="with --limit: take N cases evenly spaced over the whole case list (every family) instead of the first N")
     ap.add_argument("--no-evidence", action="store_true")
     ap.add_argument("--digest-only", action="store_true", help="print the digest of every case (determinism self-test)")
     args = ap.parse_args(argv)
@@ -280,7 +281,7 @@ def _run(check: Check, args, t0: float) -> int:
         return _replay(check, args.replay)
     cases = check.cases(tier, seed)
     if args.limit:
-        cases = cases[: args.limit]
+        cases = cases[:: max(1, len(cases) // args.limit)][: args.limit] if args.spread else cases[: args.limit]
     n = len(cases)
     if n == 0:
         raise HarnessError("no cases generated")
